@@ -11,6 +11,7 @@
 package main
 
 import (
+	"sync"
 	"bytes"
 	"context"
 	"encoding/hex"
@@ -186,6 +187,7 @@ type roundObs struct {
 	Names []string `json:"names"` // registry listing for the endpoint after the round (sorted)
 	Guard guard    `json:"guard"`
 	Stats int      `json:"stats_models"` // registry stats: total models
+	Routable []string `json:"routable"`  // names (from the alphabet and the listings so far) whose model->endpoints lookup contains this endpoint
 }
 
 func discoverCase(c *vlib.Cases, pf *profile.Factory, epType string, rounds []round) {
@@ -211,10 +213,14 @@ func discoverCase(c *vlib.Cases, pf *profile.Factory, epType string, rounds []ro
 	client := discovery.NewHTTPModelDiscoveryClientWithDefaults(pf, log)
 	svc := discovery.NewModelDiscoveryService(client, repo, reg, discovery.DiscoveryConfig{Interval: time.Hour, Timeout: 3 * time.Second, ConcurrentWorkers: 1, RetryAttempts: 1, RetryBackoff: time.Millisecond}, log)
 	var out []roundObs
+	alphabet := map[string]bool{}
+	for _, n := range namePool {
+		alphabet[n] = true
+	}
 	for _, rd := range rounds {
 		status = 200
 		switch rd.Class {
-		case "good", "dup", "nameless", "emptylist":
+		case "good", "dup", "nameless", "emptylist", "blankname":
 			cur = listingFor(formatOf(epType), rd.Names, nil)
 		case "emptybody":
 			cur = nil
@@ -246,13 +252,32 @@ func discoverCase(c *vlib.Cases, pf *profile.Factory, epType string, rounds []ro
 		}
 		st, _ := reg.GetStats(context.Background())
 		o.Stats = st.TotalModels
+		for _, n := range rd.Names {
+			alphabet[n] = true
+		}
+		o.Routable = []string{}
+		for n := range alphabet {
+			if n == "" {
+				continue
+			}
+			urls, _ := reg.GetEndpointsForModel(context.Background(), n)
+			for _, u := range urls {
+				if u == ep.URLString {
+					o.Routable = append(o.Routable, n)
+					break
+				}
+			}
+		}
+		sort.Strings(o.Routable)
 		out = append(out, o)
 	}
 	c.Emit(map[string]any{"kind": "discover", "type": epType, "rounds": rounds, "impl": map[string]any{"obs": out}})
 }
 
+var namePool = []string{"llama3:8b", "llama3:70b", "phi4:latest", "Qwen2.5-Coder", "mistral", "a::b", "x*", "gemma2:9b"}
+
 func genNames(r *vlib.Rng) []string {
-	pool := []string{"llama3:8b", "llama3:70b", "phi4:latest", "Qwen2.5-Coder", "mistral", "a::b", "x*", "gemma2:9b"}
+	pool := namePool
 	n := 1 + r.Intn(4)
 	out := make([]string, n)
 	for i := range out {
@@ -262,7 +287,7 @@ func genNames(r *vlib.Rng) []string {
 }
 
 func genRounds(r *vlib.Rng) []round {
-	classes := []string{"good", "good", "good", "dup", "nameless", "emptylist", "emptybody", "garbage", "truncated", "http500", "wrongtype"}
+	classes := []string{"good", "good", "good", "dup", "nameless", "blankname", "emptylist", "emptybody", "garbage", "truncated", "http500", "wrongtype"}
 	n := 2 + r.Intn(5)
 	out := []round{{Class: "good", Names: genNames(r)}}
 	for i := 1; i < n; i++ {
@@ -278,6 +303,8 @@ func genRounds(r *vlib.Rng) []round {
 			}
 		case "emptylist":
 			rd.Names = []string{}
+		case "blankname": // a name that is only white space, after a valid entry
+			rd.Names = append(rd.Names, vlib.Pick(r, []string{"  ", " ", "\t"}))
 		}
 		out = append(out, rd)
 	}
@@ -341,6 +368,45 @@ func xlateCase(c *vlib.Cases, tr *anthropic.Translator, body []byte, stream bool
 		}
 	})
 	c.Emit(map[string]any{"kind": "xlate", "stream": stream, "how": how, "body_hex": hexCap(body), "impl": map[string]any{"guard": g, "outcome": outcome}})
+}
+
+// ---------------------------------------------------------------- relays through the running stack
+
+// relayCase: a backend answers a proxied / translated request with an arbitrary status and an arbitrary
+// (possibly huge or garbage) body. Whatever it says, the request must END (no hang: the client gets the
+// end of a response or a closed connection within the bound) and the stack must still serve the next request.
+func relayCase(c *vlib.Cases, engine, route string, stream bool, status int, body []byte, ct, how string) {
+	b := stack.NewBackend("R")
+	defer b.Close()
+	b.Listing = func(p string) (int, string) {
+		if strings.HasSuffix(p, "/v1/models") {
+			return 200, `{"object":"list","data":[{"id":"m1","object":"model"}]}`
+		}
+		return 0, ""
+	}
+	poison := true
+	b.SetScript(func(int, *stack.Seen) stack.Behaviour {
+		if poison {
+			return stack.Behaviour{Kind: "ok", Status: status, Headers: [][2]string{{"Content-Type", ct}}, Body: body}
+		}
+		return stack.Behaviour{Kind: "ok", Status: 200, Headers: [][2]string{{"Content-Type", "application/json"}}, Body: []byte(chunkSeeds["openai"][0])}
+	})
+	s, err := stack.Start(stack.Opts{Engine: engine, Balancer: "priority", ModelDiscovery: true, EPs: []stack.EP{{Name: "R", Type: "openai", Priority: 1, Backend: b}}})
+	if err != nil {
+		c.Emit(map[string]any{"kind": "relay", "impl": map[string]any{"start_err": err.Error()}})
+		return
+	}
+	defer s.Stop()
+	path, reqBody := "/olla/proxy/v1/chat/completions", fmt.Sprintf(`{"model":"m1","stream":%v,"messages":[{"role":"user","content":"x"}]}`, stream)
+	if route == "anthropic" {
+		path, reqBody = "/olla/anthropic/v1/messages", fmt.Sprintf(`{"model":"m1","max_tokens":8,"stream":%v,"messages":[{"role":"user","content":"x"}]}`, stream)
+	}
+	hdr := [][2]string{{"Content-Type", "application/json"}, {"anthropic-version", "2023-06-01"}}
+	r1 := stack.Do(s.Addr, stack.Request("POST", path, s.Addr, hdr, []byte(reqBody), false), 4*time.Second)
+	poison = false
+	r2 := stack.Do(s.Addr, stack.Request("POST", "/olla/proxy/v1/chat/completions", s.Addr, hdr, []byte(`{"model":"m1","messages":[]}`), false), 4*time.Second)
+	c.Emit(map[string]any{"kind": "relay", "engine": engine, "route": route, "stream": stream, "status": status, "how": how, "body_len": len(body),
+		"impl": map[string]any{"err": r1.Err, "client_status": r1.Status, "ms": r1.Ms, "got": len(r1.Body), "probe_status": r2.Status, "probe_err": r2.Err}})
 }
 
 func main() {
@@ -408,6 +474,7 @@ func main() {
 	discoverCase(c, pf, "openai", []round{{"good", []string{"a", "b"}}, {"garbage", nil}, {"truncated", []string{"c"}}, {"http500", nil}, {"emptylist", []string{}}, {"good", []string{"c"}}})
 	discoverCase(c, pf, "ollama", []round{{"good", []string{"x", "y"}}, {"nameless", []string{"", "z"}}, {"dup", []string{"z", "z", "w"}}, {"wrongtype", nil}, {"emptybody", nil}})
 	discoverCase(c, pf, "openai", []round{{"good", []string{"a"}}, {"oversized", []string{"big"}}, {"good", []string{"b"}}})
+	discoverCase(c, pf, "ollama", []round{{"good", []string{"llama3:8b", "mistral"}}, {"blankname", []string{"mistral", "  "}}, {"good", []string{"phi4:latest"}}})
 	for i := 0; i < nd; i++ {
 		discoverCase(c, pf, vlib.Pick(r, types), genRounds(r))
 		c.Count("discover")
@@ -494,6 +561,53 @@ func main() {
 		xlateCase(c, tr, mutate(r, streamSeed), true, "mutated")
 		c.Count("xlate.mutated")
 	}
+	// relays through the running stack: error bodies and success bodies of every size and shape
+	type rb struct {
+		how  string
+		ct   string
+		body []byte
+	}
+	bodies := []rb{{"small-json", "application/json", []byte(`{"error":{"message":"boom"}}`)}, {"empty", "application/json", nil},
+		{"garbage", "text/html", []byte("<html>\x00\xff\xfe</html>")}, {"70KiB", "text/plain", bytes.Repeat([]byte("e"), 70<<10)},
+		{"256KiB", "application/json", []byte(`{"error":{"message":"` + strings.Repeat("x", 256<<10) + `"}}`)}, {"2MiB", "text/html", bytes.Repeat([]byte("<p>trace</p>\n"), 150000)},
+		{"wrong-shape", "application/json", []byte(`{"choices":[]}`)}, {"sse-garbage", "text/event-stream", []byte("data: {not json\n\ndata: [DONE]\n\n")}}
+	type rj struct {
+		engine, route string
+		stream        bool
+		status        int
+		b             rb
+	}
+	var rjs []rj
+	for _, engine := range []string{"sherpa", "olla"} {
+		for _, route := range []string{"anthropic", "proxy"} {
+			for _, stream := range []bool{false, true} {
+				for _, st := range []int{200, 400, 500} {
+					for _, b := range bodies {
+						if thorough || st == 500 || r.Chance(1, 4) {
+							rjs = append(rjs, rj{engine, route, stream, st, b})
+						}
+					}
+				}
+			}
+		}
+	}
+	var rmu sync.Mutex
+	_ = rmu
+	done := make(chan bool, 16)
+	sem := make(chan bool, 16)
+	for _, j := range rjs {
+		j := j
+		sem <- true
+		go func() {
+			relayCase(c, j.engine, j.route, j.stream, j.status, j.b.body, j.b.ct, j.b.how)
+			<-sem
+			done <- true
+		}()
+	}
+	for range rjs {
+		<-done
+	}
+	c.Count("relay")
 	c.Close(map[string]any{"exhaustive": false, "exhaustive_note": "sampling only: structural mutations of each provider's response shapes"})
 	_ = domain.StatusHealthy
 	_ = http.StatusOK
